@@ -22,6 +22,8 @@ package signer
 //@ modifies tokroot, db, checkedset, deniedset, held, prelocked
 //@ ensures [released] !prelocked && (forall k [48]byte :: !held[k])
 //@ ensures [failclosed] result1 == nil && result0 != nil && ((result0.State == pb.ResponseState_SUCCEEDED) <==> (result0.Signature != nil))
+// (C08 at the wire) what the signer is asked to sign is what the request carries, field by field
+//@ hint-after before:SignBeaconAttestation@1 [wire-data] data != nil && data.Domain == req.Domain && data.Slot == req.Data.Slot && data.CommitteeIndex == req.Data.CommitteeIndex && data.BeaconBlockRoot == req.Data.BeaconBlockRoot && data.Source != nil && data.Target != nil && data.Source.Epoch == req.Data.Source.Epoch && data.Source.Root == req.Data.Source.Root && data.Target.Epoch == req.Data.Target.Epoch && data.Target.Root == req.Data.Target.Root
 
 //@ func (*Handler).SignBeaconProposal
 //@ requires wiredSignerHandler(h)
@@ -30,6 +32,7 @@ package signer
 //@ modifies tokroot, db, checkedset, deniedset, held, prelocked
 //@ ensures [released] !prelocked && (forall k [48]byte :: !held[k])
 //@ ensures [failclosed] result1 == nil && result0 != nil && ((result0.State == pb.ResponseState_SUCCEEDED) <==> (result0.Signature != nil))
+//@ hint-after before:SignBeaconProposal@1 [wire-data] data != nil && data.Domain == req.Domain && data.Slot == req.Data.Slot && data.ProposerIndex == req.Data.ProposerIndex && data.ParentRoot == req.Data.ParentRoot && data.StateRoot == req.Data.StateRoot && data.BodyRoot == req.Data.BodyRoot
 
 //@ func (*Handler).Sign
 //@ requires wiredSignerHandler(h)
@@ -38,6 +41,7 @@ package signer
 //@ modifies tokroot, db, checkedset, deniedset, held, prelocked
 //@ ensures [released] !prelocked && (forall k [48]byte :: !held[k])
 //@ ensures [failclosed] result1 == nil && result0 != nil && ((result0.State == pb.ResponseState_SUCCEEDED) <==> (result0.Signature != nil))
+//@ hint-after before:SignGeneric@1 [wire-data] data != nil && data.Domain == req.Domain && data.Data == req.Data
 
 // ---- batch endpoints: position by position ----
 
@@ -71,6 +75,7 @@ package signer
 //@ ensures [shape] result1 == nil && result0 != nil && len(result0.Responses) >= 1 && (forall i int :: 0 <= i && i < len(result0.Responses) ==> result0.Responses[i] != nil)
 //@ ensures [failclosed] forall i int :: 0 <= i && i < len(result0.Responses) ==> ((result0.Responses[i].State == pb.ResponseState_SUCCEEDED) <==> (result0.Responses[i].Signature != nil))
 //@ ensures [oneeach] req != nil && len(req.Requests) > 0 ==> len(result0.Responses) == len(req.Requests)
+//@ hint-after before:Multisign@1 [wire-data] forall j int :: 0 <= j && j < len(req.Requests) ==> reqData[j] != nil && (req.Requests[j] != nil ==> reqData[j].Domain == req.Requests[j].Domain && reqData[j].Data == req.Requests[j].Data)
 //@ loop #1
 //@ invariant [range] 0 <= _n && _n <= len(req.Requests) && res != nil && fresh(res) && len(res.Responses) == len(req.Requests) && fresh(res.Responses)
 //@ invariant [made] forall j int :: 0 <= j && j < _n ==> res.Responses[j] != nil && fresh(res.Responses[j]) && allocated(res.Responses[j]) && res.Responses[j].State == pb.ResponseState_UNKNOWN && res.Responses[j].Signature == nil
@@ -81,11 +86,13 @@ package signer
 //@ invariant [range] 0 <= _n && _n <= len(req.Requests) && len(accountNames) == len(req.Requests) && len(pubKeys) == len(req.Requests) && len(reqData) == len(req.Requests) && fresh(accountNames) && fresh(pubKeys) && fresh(reqData)
 //@ invariant [domain] forall j int :: 0 <= j && j < _n ==> reqData[j] != nil && (reqData[j].Domain == nil || cap(reqData[j].Domain) >= 4)
 //@ invariant [rest] forall j int :: _n <= j && j < len(reqData) ==> reqData[j] == nil
+//@ invariant [wire-data] forall j int :: 0 <= j && j < _n ==> fresh(reqData[j]) && allocated(reqData[j]) && (req.Requests[j] != nil ==> reqData[j].Domain == req.Requests[j].Domain && reqData[j].Data == req.Requests[j].Data)
 //@ loop #4
 //@ invariant [range] 0 <= _n && _n <= len(results)
 //@ invariant [resps] len(res.Responses) == len(results) && (forall j int :: 0 <= j && j < len(res.Responses) ==> res.Responses[j] != nil && fresh(res.Responses[j]) && allocated(res.Responses[j])) && (forall j int, k int :: 0 <= j && j < k && k < len(res.Responses) ==> res.Responses[j] != res.Responses[k])
 //@ invariant [frame] unchangedField("pb.SignResponse", "State") && unchangedField("pb.SignResponse", "Signature")
 //@ invariant [done] forall j int :: 0 <= j && j < _n ==> ((res.Responses[j].State == pb.ResponseState_SUCCEEDED) <==> (res.Responses[j].Signature != nil))
+//@ invariant [sig-pos] forall j int :: 0 <= j && j < _n && res.Responses[j].State == pb.ResponseState_SUCCEEDED ==> res.Responses[j].Signature == signatures[j]
 //@ invariant [todo-sig] forall j int :: _n <= j && j < len(res.Responses) ==> res.Responses[j].Signature == nil
 //@ invariant [todo-state] forall j int :: _n <= j && j < len(res.Responses) ==> res.Responses[j].State != pb.ResponseState_SUCCEEDED
 
@@ -98,6 +105,7 @@ package signer
 //@ ensures [shape] result1 == nil && result0 != nil && len(result0.Responses) >= 1 && (forall i int :: 0 <= i && i < len(result0.Responses) ==> result0.Responses[i] != nil)
 //@ ensures [failclosed] forall i int :: 0 <= i && i < len(result0.Responses) ==> ((result0.Responses[i].State == pb.ResponseState_SUCCEEDED) <==> (result0.Responses[i].Signature != nil))
 //@ ensures [oneeach] req != nil && len(req.Requests) > 0 ==> len(result0.Responses) == len(req.Requests)
+//@ hint-after before:SignBeaconAttestations@1 [wire-data] forall j int :: 0 <= j && j < len(req.Requests) ==> reqData[j] != nil && (req.Requests[j] != nil && req.Requests[j].Data != nil && req.Requests[j].Data.Source != nil && req.Requests[j].Data.Target != nil ==> reqData[j].Domain == req.Requests[j].Domain && reqData[j].Slot == req.Requests[j].Data.Slot && reqData[j].CommitteeIndex == req.Requests[j].Data.CommitteeIndex && reqData[j].BeaconBlockRoot == req.Requests[j].Data.BeaconBlockRoot && reqData[j].Source != nil && reqData[j].Target != nil && reqData[j].Source.Epoch == req.Requests[j].Data.Source.Epoch && reqData[j].Source.Root == req.Requests[j].Data.Source.Root && reqData[j].Target.Epoch == req.Requests[j].Data.Target.Epoch && reqData[j].Target.Root == req.Requests[j].Data.Target.Root)
 //@ loop #1
 //@ invariant [range] 0 <= _n && _n <= len(req.Requests) && res != nil && fresh(res) && len(res.Responses) == len(req.Requests) && fresh(res.Responses)
 //@ invariant [made] forall j int :: 0 <= j && j < _n ==> res.Responses[j] != nil && fresh(res.Responses[j]) && allocated(res.Responses[j]) && res.Responses[j].State == pb.ResponseState_UNKNOWN && res.Responses[j].Signature == nil
@@ -108,11 +116,13 @@ package signer
 //@ invariant [range] 0 <= _n && _n <= len(req.Requests) && len(accountNames) == len(req.Requests) && len(pubKeys) == len(req.Requests) && len(reqData) == len(req.Requests) && fresh(accountNames) && fresh(pubKeys) && fresh(reqData)
 //@ invariant [domain] forall j int :: 0 <= j && j < _n ==> reqData[j] != nil && (reqData[j].Domain == nil || cap(reqData[j].Domain) >= 4)
 //@ invariant [rest] forall j int :: _n <= j && j < len(reqData) ==> reqData[j] == nil
+//@ invariant [wire-data] forall j int :: 0 <= j && j < _n ==> fresh(reqData[j]) && allocated(reqData[j]) && fresh(reqData[j].Source) && fresh(reqData[j].Target) && allocated(reqData[j].Source) && allocated(reqData[j].Target) && reqData[j] != nil && reqData[j].Source != nil && reqData[j].Target != nil && (req.Requests[j] != nil && req.Requests[j].Data != nil && req.Requests[j].Data.Source != nil && req.Requests[j].Data.Target != nil ==> reqData[j].Domain == req.Requests[j].Domain && reqData[j].Slot == req.Requests[j].Data.Slot && reqData[j].CommitteeIndex == req.Requests[j].Data.CommitteeIndex && reqData[j].BeaconBlockRoot == req.Requests[j].Data.BeaconBlockRoot && reqData[j].Source != nil && reqData[j].Target != nil && reqData[j].Source.Epoch == req.Requests[j].Data.Source.Epoch && reqData[j].Source.Root == req.Requests[j].Data.Source.Root && reqData[j].Target.Epoch == req.Requests[j].Data.Target.Epoch && reqData[j].Target.Root == req.Requests[j].Data.Target.Root)
 //@ loop #4
 //@ invariant [range] 0 <= _n && _n <= len(results)
 //@ invariant [resps] len(res.Responses) == len(results) && (forall j int :: 0 <= j && j < len(res.Responses) ==> res.Responses[j] != nil && fresh(res.Responses[j]) && allocated(res.Responses[j])) && (forall j int, k int :: 0 <= j && j < k && k < len(res.Responses) ==> res.Responses[j] != res.Responses[k])
 //@ invariant [frame] unchangedField("pb.SignResponse", "State") && unchangedField("pb.SignResponse", "Signature")
 //@ invariant [done] forall j int :: 0 <= j && j < _n ==> ((res.Responses[j].State == pb.ResponseState_SUCCEEDED) <==> (res.Responses[j].Signature != nil))
+//@ invariant [sig-pos] forall j int :: 0 <= j && j < _n && res.Responses[j].State == pb.ResponseState_SUCCEEDED ==> res.Responses[j].Signature == signatures[j]
 //@ invariant [todo-sig] forall j int :: _n <= j && j < len(res.Responses) ==> res.Responses[j].Signature == nil
 //@ invariant [todo-state] forall j int :: _n <= j && j < len(res.Responses) ==> res.Responses[j].State != pb.ResponseState_SUCCEEDED
 
